@@ -702,9 +702,9 @@ def run_batch(spec):
                                     hp["linger"] = 0.25
                                     hp["nth"] = 1
                                 if variant == 0 and pt[0] == "ProcessWatcher":
-                                    # the process watcher stands at this line (first arrival: on its way into its first poll()) while an
-                                    # event-triggered restart stops it, kills the child and starts the next one; the poll() it then makes
-                                    # sees the death the restart itself caused - that must not count as the command having exited
+                                    # a long-lived child, one event, quiescent: exactly one restart is owed while the watcher's thread is the
+                                    # hold target.  (Aim: the watcher standing before poll() while an event-triggered restart kills the child;
+                                    # ProcessWatcher.run's own lines are not hold points yet, so that window is only met by chance.)
                                     cfg = {"debounce": 0, "restart_on_exit": True, "behaviours": [{"die_after_polls": r.choice([1, 2])}] * 8,
                                            "script": [("event",), ("wait", 0.3)], "quiescent": True, "expected_restarts": 1, "kill_after": 10}
                                     hp["linger"] = 0.25
